@@ -65,7 +65,7 @@ def numbers(r):
 
 VALUES = ["nil", "true", "false", "0", "-0", "1", "-1", "2.5", "1e308 * 10", "0/0", "'str'", "''", "'é'", "[1, 2, 3]", "[]",
           "{}", "{1: 'a'}", "(1, 2)", "|| 1", "|a, b| a < b", "|a, b| a - b", "[3, 1, 2]", "'a,b'", "chan(1)", "Error('x')",
-          "9007199254740993", "-2.5", "[nil, 1]", "(nil,)", "{'k': nil}"]
+          "9007199254740993", "-2.5", "[nil, 1]", "(nil,)", "{'k': nil}", "1e21", "-2e19", "1e300", "0 * -1"]
 
 CALLS = [
     "%s.sort(%s)", "%s.push(%s)", "%s.insert(%s, %s)", "%s.remove(%s)", "%s[%s]", "%s.has(%s)", "%s.index(%s)", "%s.slice(%s, %s)",
@@ -75,6 +75,8 @@ CALLS = [
     "%s == %s", "-%s", "!%s", "%s.str()", "%s.len()", "%s.times().take(3).list()", "%s.until(%s).take(3).list()", "Number.parse(%s)",
     "%s.floor()", "%s.up()", "%s.trim()", "%s()", "%s(%s)", "%s.close()", "%s.rev()", "%s.iter().first()", "%s.iter().last()",
     "[%s, %s].sort(%s)", "{%s: %s}.len()", "'${%s}'", "%s.iter().into(List.collect)", "%s.cls().name()", "%s && %s", "%s || %s",
+    # (an absent key is named in the message of the error)
+    "{1: 'a'}[%s]", "{'k': 1}[%s]", "{1: 'a'}.remove(%s)",
     "%s.message", "%s.pop()", "%s.clear()", "%s.cmp(%s)", "%s.round()", "%s.ceil()", "%s.down()", "%s.has(%s) == %s.has(%s)",
 ]
 
